@@ -122,9 +122,26 @@ func c16Zeroing(c *core.Ctx) {
 		if ifi, ok := b.Instrs[len(b.Instrs)-1].(*ssa.If); ok {
 			k := core.Key(ifi.Cond)
 			if strings.Contains(k, ".Endpoints[") && strings.HasSuffix(k, ".Weight == 0)") {
-				// the GetPod call is not reachable on the true edge without passing the loop header
-				tb := b.Succs[0]
-				okSkip = core.IsBackEdge(b, tb) || len(tb.Instrs) == 1
+				// every weight assignment of the loop executes only on the false edge of this test
+				l := core.InnermostLoop(fn, b)
+				if l == nil {
+					continue
+				}
+				okSkip = true
+				n := 0
+				for _, st := range fieldStores(fn, false, "haproxy/types.Endpoint", "Weight") {
+					if !l.Blocks[st.Block()] {
+						continue
+					}
+					n++
+					if !guardedBy(st, func(g string) bool { return g == k }, false) {
+						okSkip = false
+						c.Violated("draining endpoint keeps weight 0: "+core.Key(st.Val), at(c, st), "a weight is assigned in the label-matching loop on a path that does not pass the false edge of `ep.Weight == 0`: a draining server (weight 0) gets a group's weight back")
+					}
+				}
+				if n < 2 {
+					okSkip = false
+				}
 			}
 		}
 	}
